@@ -7,9 +7,9 @@ namespace Golib.C19
 
 /-- What the handler must have received on behalf of a task so far. -/
 def Task.expectedHandled (t : Task) : List HVal :=
-  match t.outcome with
-  | .ok => []
-  | .panic v => if 6 ≤ t.pc.rank then [.val v] else []
+  match t.outcome.recovered with
+  | none => []
+  | some v => if 6 ≤ t.pc.rank then [.val v] else []
 
 structure TaskOK (t : Task) : Prop where
   starts : t.starts = if 4 ≤ t.pc.rank then 1 else 0
@@ -129,12 +129,12 @@ theorem Inv.adv {n₀ : Nat} {s s' : St} (hi : Inv n₀ s) {i : Nat} (h : s.adv 
       refine hi.set_task ht _ _ _ (by simp [Pc.holdsToken]) (by simp [Pc.inWg]) hi.hkn ?_ (by simp [Pc.rank])
       exact ⟨by simpa [Pc.rank] using hs, by simpa [Task.expectedHandled, Pc.rank] using hh, by simp⟩
     · -- recovering → cleanup
-      cases outcome <;> simp only [] at h <;> cases h
+      cases hrec : outcome.recovered <;> simp only [hrec] at h <;> cases h
       · refine hi.set_task ht _ _ _ (by simp [Pc.holdsToken]) (by simp [Pc.inWg]) hi.hkn ?_ (by simp [Pc.rank])
-        exact ⟨by simpa [Pc.rank] using hs, by simpa [Task.expectedHandled, Pc.rank] using hh, by simp⟩
+        exact ⟨by simpa [Pc.rank] using hs, by simpa [Task.expectedHandled, Pc.rank, hrec] using hh, by simp⟩
       · refine hi.set_task ht _ _ _ (by simp [Pc.holdsToken]) (by simp [Pc.inWg]) hi.hkn ?_ (by simp [Pc.rank])
         refine ⟨by simpa [Pc.rank] using hs, ?_, by simp⟩
-        simp [Task.expectedHandled, Pc.rank] at hh ⊢
+        simp [Task.expectedHandled, Pc.rank, hrec] at hh ⊢
         simp [hh]
     · -- cleanup → wgDone (the zero-counter panic is unreachable)
       have hpos := inWg_pos hi ht (by simp [Pc.inWg])
@@ -180,7 +180,7 @@ theorem Inv.step {n₀ : Nat} {s s' : St} (hi : Inv n₀ s) {l : Label} (h : s.s
       · exact hi.htasks t h
       · simp only [List.mem_singleton] at h
         subst h
-        exact ⟨by simp [Pc.rank], by cases o <;> simp [Task.expectedHandled, Pc.rank], by simp⟩
+        exact ⟨by simp [Pc.rank], by cases o <;> simp [Task.expectedHandled, Outcome.recovered, Pc.rank], by simp⟩
     · intro w hw j hj
       obtain ⟨t0, ht0, h3, h7⟩ := hi.hwait w hw j hj
       have hlen : j < s.tasks.length := (List.getElem?_eq_some_iff.1 ht0).1
